@@ -106,6 +106,68 @@ static void part_fp(const std::vector<unsigned>& ns, unsigned nseeds, unsigned s
     R.bound_done("fp: n x 4 tracking models x stencils x 3 decrements x 3 zero-bin shifts x seeds x lattice positions x " + std::to_string(steps) + " steps; stochastic ensemble of 4096 over 3 damping times (n >= 32)");
 }
 
+
+// part=chain : the real map classes over several consecutive steps (static and dynamic RF kick with modulation / noise, drift with
+//              higher orders): an impulse of charge and a particle start on the same lattice point; after every apply()+applyTo()
+//              the centroid of the charge (which stays in its row) must coincide with the particle
+static void part_chain(const std::vector<unsigned>& ns, unsigned steps) {
+    static const char* CN[] = {"RFKickMap.linear", "RFKickMap.sin", "DynamicRF.linear.mod", "DynamicRF.sin.mod", "DynamicRF.linear.noise", "DynamicRF.sin.noise", "DriftMap", "DriftMap.alpha12"};
+    for (unsigned n : ns) for (int kind = 0; kind < 8; kind++) for (unsigned it = 2; it <= 4; it++) for (int sh = 0; sh < 2; sh++) {
+        std::string kase = mcx::Desc()("part", "chain")("map", CN[kind])("n", n)("it", it)("shift", sh).str();
+        if (!R.mine(kase)) continue;
+        if (R.out_of_time()) { R.not_completed = kase; return; }
+        set_size(n, 1);
+        auto in = mkps_shift(n, 12, sh ? 2 : 0, sh ? -1 : 0, {1.f}), out = mkps_shift(n, 12, sh ? 2 : 0, sh ? -1 : 0, {1.f});
+        auto itt = (SourceMap::InterpolationType)it;
+        const float angle = 2 * M_PI / 40; const double revpart = 0.01, frf = 5e8;
+        const double bl2phase = 1e-3 / physcons::c * frf * 2 * M_PI, dE = in->getDelta(1) * 6.1e5;
+        const double Veff = std::tan(angle) * dE / (in->getDelta(0) * revpart * bl2phase), V0 = 0.1 * Veff, VRF = std::sqrt(Veff * Veff + V0 * V0);
+        std::shared_ptr<SourceMap> m; const bool ykick = kind < 6;
+        switch (kind) {
+        case 0: m = std::make_shared<RFKickMap>(in, out, angle, (float)frf, itt, false, nullptr); break;
+        case 1: m = std::make_shared<RFKickMap>(in, out, (float)revpart, (float)VRF, (float)frf, (float)V0, itt, false, nullptr); break;
+        case 2: m = std::make_shared<DynamicRFKickMap>(in, out, n, n, angle, revpart, frf, 0.f, 0.f, 0.05f, 0.11, steps, itt, false, nullptr); break;
+        case 3: m = std::make_shared<DynamicRFKickMap>(in, out, n, n, revpart, VRF, frf, V0, 0.f, 0.f, 0.05f, 0.11, steps, itt, false, nullptr); break;
+        case 4: m = std::make_shared<DynamicRFKickMap>(in, out, n, n, angle, revpart, frf, 0.02f, 0.05f, 0.f, 0.0, steps, itt, false, nullptr); break;
+        case 5: m = std::make_shared<DynamicRFKickMap>(in, out, n, n, revpart, VRF, frf, V0, 0.02f, 0.05f, 0.02f, 0.07, steps, itt, false, nullptr); break;
+        case 6: m = std::make_shared<DriftMap>(in, out, std::vector<float>{angle, 0.f, 0.f}, 1.3e9f, itt, false, nullptr); break;
+        default: m = std::make_shared<DriftMap>(in, out, std::vector<float>{angle, 0.4f * angle, -0.3f * angle}, 1.3e9f, itt, false, nullptr); break;
+        }
+        const std::string key = std::string("C15/chain/") + CN[kind];
+        double worst = 0;
+        for (unsigned r0 = 2; r0 + 2 < n; r0++) {
+            // one chain per row: the maps with a queue are rebuilt (their queue holds `steps` entries)
+            if (kind >= 2 && kind <= 5 && r0 > 2) {
+                if (kind == 2) m = std::make_shared<DynamicRFKickMap>(in, out, n, n, angle, revpart, frf, 0.f, 0.f, 0.05f, 0.11, steps, itt, false, nullptr);
+                if (kind == 3) m = std::make_shared<DynamicRFKickMap>(in, out, n, n, revpart, VRF, frf, V0, 0.f, 0.f, 0.05f, 0.11, steps, itt, false, nullptr);
+                if (kind == 4) m = std::make_shared<DynamicRFKickMap>(in, out, n, n, angle, revpart, frf, 0.02f, 0.05f, 0.f, 0.0, steps, itt, false, nullptr);
+                if (kind == 5) m = std::make_shared<DynamicRFKickMap>(in, out, n, n, revpart, VRF, frf, V0, 0.02f, 0.05f, 0.02f, 0.07, steps, itt, false, nullptr);
+            }
+            const unsigned c0 = n / 2;
+            float* din = in->getData(); std::fill(din, din + (size_t)n * n, 0.f);
+            din[ykick ? (size_t)r0 * n + c0 : (size_t)c0 * n + r0] = 1.f;
+            PhaseSpace::Position pos = ykick ? PhaseSpace::Position{(float)r0, (float)c0} : PhaseSpace::Position{(float)c0, (float)r0};
+            for (unsigned k = 0; k < steps; k++) {
+                m->apply(); m->applyTo(pos);
+                const float* o = out->getData(); double q = 0, mo = 0;
+                for (unsigned c = 0; c < n; c++) { double v = o[ykick ? (size_t)r0 * n + c : (size_t)c * n + r0]; q += v; mo += v * c; }
+                const double cen = mo / q, got = ykick ? pos.y : pos.x;
+                R.eval(kase + " row=" + std::to_string(r0) + " step=" + std::to_string(k), mcx::fnv(&got, 8, mcx::fnvs(kase) + r0 * 100 + k), false);
+                if (!std::isfinite(got) || got < 0 || got > n - 1) { char d[160]; snprintf(d, 160, "row %u step %u: particle at %g", r0, k, got); R.violate(key + "/leaves-grid", kase, d); break; }
+                if (std::fabs(q - 1) > 2e-6 || cen < 3 || cen > n - 4) break;    // the charge (or the far lobes of the interpolation) reaches the border: the comparison ends for this row
+                worst = std::max(worst, std::fabs(cen - got));
+                if (!(std::fabs(cen - got) <= 5e-4)) {
+                    char d[240]; snprintf(d, 240, "row %u step %u: particle at %.6f, centre of the charge it started on at %.6f", r0, k, got, cen);
+                    R.violate(key + "/does-not-follow-flow", kase, d); break;
+                }
+                std::copy(o, o + (size_t)n * n, in->getData());
+            }
+        }
+        R.maxnum("worst_chain_particle_vs_centroid", worst);
+    }
+    R.bound_done("chain: n x {static RF linear/sin, dynamic RF linear/sin with modulation / with noise, drift, drift with alpha1,2} x it{2,3,4} x 2 grid shifts x every interior row x " + std::to_string(steps) + " consecutive steps");
+}
+
 int main(int argc, char** argv) {
     R.init(argc, argv, "C15", "C15_tracking"); quiet();
     R.rule = "kick: one evaluation = one particle position x offset pair through the real applyTo (plus apply on a two-row blob in the interior); fp: one evaluation = one lattice of particles followed for many steps; "
@@ -114,5 +176,6 @@ int main(int argc, char** argv) {
     const bool T = R.thorough();
     part_kick(T ? std::vector<unsigned>{12, 16, 17, 24} : std::vector<unsigned>{12, 13});
     part_fp(T ? std::vector<unsigned>{12, 16, 17, 32, 33, 48} : std::vector<unsigned>{12, 13, 32}, T ? 32 : 4, T ? 400 : 200);
+    part_chain(T ? std::vector<unsigned>{16, 17, 32} : std::vector<unsigned>{16, 17}, T ? 12 : 6);
     return R.finish();
 }
